@@ -13,7 +13,7 @@ SPEC = dict(
              '(c06_store_load, c06_decode_encode); any list of values stored into an empty builder loads back equal with nothing left '
              '(c06_sequence, induction); whenever load_X returns, preload_X returns the same and leaves the slice unchanged (c06_preload_eq_load, '
              'every kind incl. preload_address); var-int length prefixes are minimal for both signs (c06_varint_minimal) and the byte-length computations of store_var_uint/store_var_int are '
-             're-translated from builder.py on every run and proved equal to the TL-B minimal lengths for ALL integers (c06_src_varint_len, c06_src_varuint_len); snake chains: see c06_snake*. '
+             're-translated from builder.py on every run and proved equal to the TL-B minimal lengths for ALL integers (c06_src_varint_len, c06_src_varuint_len); snake chains of ANY length into any within-capacity builder (c06_snake_depth_exact, with the depth-checking cell constructor of C01): the chain for n bytes after p prefilled bits has depth exactly 0 if n <= (1023-p)//8 else ceil((n - (1023-p)//8)/127); store_snake_bytes returns iff that is <= 1024, end_cell on the result succeeds iff it is <= 1023 (the library raises the depth error beyond), and whenever the store returns load_snake_bytes gives the bytes back. '
              'The model is tied to the working tree by differential testing: seeded scripts run on the library and on the compiled model, and '
              'each script is also checked on the library alone against an independent Python TL-B encoder, peek/load round trip and leftovers.',
         level_note='Proved for all inputs: the statements above, about Model/Builder.lean. Only sampled: that builder.py/slice.py/tvm_bitarray.py/'
@@ -26,7 +26,7 @@ SPEC = dict(
     design_ref='DESIGN.md §6 C06',
     rule='seeded sequences of typed values that fit a cell (ints of widths 1..257 at 0/1/max/top-bit/min/-1, var-ints of every byte-length '
          'class incl. top-bit-set values, coins, bits, bytes, refs, maybe-refs, addr_none/extern(len 0..511)/std(+anycast)), snake byte strings '
-         'of boundary lengths, optional dicts (HashmapE bit + ref), strings (store_string/load_string/preload_string incl. multi-byte UTF-8), '
+         'of boundary lengths (chunk boundaries x prefills 0/8/3/1016/1023; chain depths 1023/1024/1025 for prefills 0/3/11/1016: root depth compared with the closed form, raise point store vs end_cell), optional dicts (HashmapE bit + ref), strings (store_string/load_string/preload_string incl. multi-byte UTF-8), '
          'store_snake_string with and without prefix; each stored, compared bit-for-bit with an independent TL-B encoder, peeked and loaded back, and run through '
          'the Lean model; distinct = distinct script; non-trivial = script has >= 1 value',
     trusted_base=['Model/Builder.lean mirrors builder.py/slice.py/TvmBitarray/address.to_cell by hand (BOp/SOp state functions)',
@@ -116,7 +116,12 @@ def snake(ctx, n, prefill):
     inp = {'ops': [o[:80] for o in ops], 'len': n, 'prefill': prefill}
     ctx.case(('snake', n, prefill), sample={'snake_len': n, 'prefill': prefill})
     ctx.count('snake')
-    flags, bits, refs, fin, b = S.exec_builder([], ops)
+    try:
+        flags, bits, refs, fin, b = S.exec_builder([], ops)
+    except Exception as e:      # e.g. a non-cell object left in the reference list
+        ctx.fail('snake-store', f'store_snake_bytes of {n} bytes (prefill {prefill}) left the builder in a state that cannot be inspected', inp,
+                 type(e).__name__ + ': ' + str(e)[:100], 'stored')
+        return
     # closed form of c06_snake_depth_exact: room (1023 - prefill) // 8 in the first builder, 127 bytes per tail cell
     room = (1023 - prefill) // 8
     depth = 0 if n <= room else -(-(n - room) // 127)
@@ -334,3 +339,5 @@ def replay(ctx, payload):
     if 'ops' in inp and 'dag' in inp:
         dag = [(k, b, tuple(r)) for k, b, r in inp['dag']]
         check_roundtrip(ctx, dag, G.lib_build(dag), inp['ops'], inp.get('tag', 'replay'))
+    elif 'len' in inp and 'prefill' in inp:
+        snake(ctx, int(inp['len']), int(inp['prefill']))
